@@ -535,6 +535,39 @@ func registerHost(L *lua.LState) {
 		L.RaiseError("host function failed")
 		return 0
 	}))
+	L.SetGlobal("hostresume", L.NewFunction(func(L *lua.LState) int {
+		fn := L.CheckFunction(1)
+		var args []lua.LValue
+		for i := 2; i <= L.GetTop(); i++ {
+			args = append(args, L.Get(i))
+		}
+		th, _ := L.NewThread()
+		top := L.GetTop()
+		for {
+			st, err, vals := L.Resume(th, fn, args...)
+			if L.GetTop() != top {
+				// (a Go panic: shows up as a failure no Lua program produces)
+				panic(fmt.Sprintf("host: LState.Resume changed the resuming function's stack height from %d to %d", top, L.GetTop()))
+			}
+			switch st {
+			case lua.ResumeError:
+				L.Push(lua.LFalse)
+				if ae, ok := err.(*lua.ApiError); ok {
+					L.Push(ae.Object)
+				} else {
+					L.Push(lua.LString(err.Error()))
+				}
+				return 2
+			case lua.ResumeOK:
+				L.Push(lua.LTrue)
+				for _, v := range vals {
+					L.Push(v)
+				}
+				return 1 + len(vals)
+			}
+			args = nil
+		}
+	}))
 	L.SetGlobal("hoststackoverflow", L.NewFunction(func(L *lua.LState) int {
 		// unbounded (non-tail) recursion, entered through the Go API: fails with the call-stack overflow error
 		f, err := L.LoadString("local function r(n) return 1 + r(n + 1) end return r(1)")
